@@ -424,6 +424,27 @@ def r4(ctx):
                           exc_q, "after boot" if booted else "before the worker has booted", sorted(map(str, got)), want,
                           "the master would halt on the crash of a running worker" if booted else "the master does not recognise the boot failure and respawns the worker forever"), "-> %s" % (want,))
     ctx.table("C03.R4 child exit status", rows)
+    # with reuse_port the listeners are created in the child: create_sockets() gives up with sys.exit(1) when an address cannot
+    # be bound -- in the master that stops the server, in a worker it is a boot failure like any other and has to end the child
+    # with WORKER_BOOT_ERROR (status 1 is "crashed, respawn": the master would fork a worker that cannot bind every few seconds,
+    # for ever, serving nothing)
+    for c in calls_to(repo, f, "gunicorn.sock.create_sockets"):
+        h = _landing(repo, f, c, "SystemExit", follow_reraise=False)
+        got = set()
+        if h is not None:
+            hn = [n for n in f.cfg.nodes_of(h) if n.kind == "handler"][0]
+
+            def probe_of2(c2):
+                return lambda ex, env: (ex.ev(c2.args[0], env) if c2.args else 0)
+            probes2 = {nn.id: ("exit@%d" % i, probe_of2(c2)) for i, c2 in enumerate(exits) for nn in nodes_with(f, c2)}
+            for o in Explorer(f).run(hn, {WK + ".booted": False}, probes=probes2):
+                ev_ = [v for k, v in o.events if isinstance(k, str) and k.startswith("exit@")]
+                got.add(ev_[0] if len(ev_) == 1 else ("passes the exit status on" if not ev_ else "several"))
+        else:
+            got.add("passes the exit status on")
+        ctx.check("C03.R4", got == {vals_["WORKER_BOOT_ERROR"]}, key(f, "child-exit|create_sockets"), site(f, c),
+                  "a worker whose create_sockets() gives up (reuse_port: the address cannot be bound -> sys.exit(1)) %s instead of exiting with WORKER_BOOT_ERROR: the master takes it for a "
+                  "crash and respawns a worker that cannot boot for ever" % sorted(map(str, got)), "-> %s" % vals_["WORKER_BOOT_ERROR"])
     # booted is set right before run()
     f_ip = ctx.fn(repo.func("gunicorn.workers.base.Worker.init_process"))
     bs = [n for n in f_ip.cfg.stmts(ast.Assign) if any(tail(t) == "booted" for t in n.ast.targets) and const(n.ast.value, NO) is True]
